@@ -223,7 +223,20 @@ impl World {
                 return;
             }
         }
+        // the sweep's start, in allocations (for the sleep oracle of cycles whose sweep is
+        // interleaved with allocation)
+        {
+            let rt = &mut self.rt[a as usize];
+            if call == Call::CollectDebt && p != Phase::Sleeping && dpos {
+                rt.allocs_at_sweep_start = None; // may have crossed a cycle boundary unseen
+            } else if p != Phase::Sweeping && post == Phase::Sweeping {
+                rt.allocs_at_sweep_start = Some(rt.allocs);
+            }
+        }
         self.c09_after_call(a, call, p, post, d0, d1, count0, unwound, drops0);
+        if post != Phase::Sweeping {
+            self.rt[a as usize].allocs_at_sweep_start = None;
+        }
         if !self.ok() {
             return;
         }
@@ -336,8 +349,18 @@ impl World {
             // inside this call, so every object alive now was remembered by it)
             let atomic = p == Phase::Sleeping && (call == Call::FinishCycle || (debt_driven && dpos && call != Call::MarkDebt));
             let zero_carry = call == Call::FinishCycle && p != Phase::Sleeping && p != Phase::Sweeping && d0 == 0.0;
-            if (atomic || zero_carry) && !self.rt[a as usize].pacing_changed_since_last_cycle_end() {
-                let survivors = self.metrics(a).total_gc_count();
+            // finish_cycle from the middle of a sweep with zero debt: nothing is carried either
+            // (the call allocates nothing, credits only lower the debt). What the sweep kept is
+            // everything that exists now minus what was allocated since the sweep began: those
+            // objects sit in front of the cursor, the sweep neither visits nor remembers them.
+            let sweep_allocs = self.rt[a as usize].allocs_at_sweep_start.map(|s0| self.rt[a as usize].allocs - s0);
+            let zero_carry_sweep = call == Call::FinishCycle && p == Phase::Sweeping && d0 == 0.0 && sweep_allocs.is_some();
+            if (atomic || zero_carry || zero_carry_sweep) && !self.rt[a as usize].pacing_changed_since_last_cycle_end() {
+                let mut survivors = self.metrics(a).total_gc_count();
+                if zero_carry_sweep {
+                    survivors = survivors.saturating_sub(sweep_allocs.unwrap_or(0));
+                    self.stats.flag("C09.sleep-after-interleaved-sweep");
+                }
                 let w = (survivors as f64 * pacing.sleep_factor).max(pacing.min_sleep as f64);
                 self.rt[a as usize].sleep = Some((survivors, 0));
                 self.rt[a as usize].sleep_threshold = w;
@@ -460,6 +483,7 @@ impl World {
                 if post != Phase::Sweeping {
                     self.violate("C08.transition", format!("start_sweeping ended in {}", phase_name(post)));
                 }
+                self.rt[a as usize].allocs_at_sweep_start = Some(self.rt[a as usize].allocs);
                 self.stats.cell("call|StartSweeping|Marked".into());
                 self.sigmix(0xC9);
             }
